@@ -21,7 +21,7 @@ HISTORY = {
     "C13": ("strengthened", "first run missed it (needs two calls in one process with different options); added the sequence scenario"),
     "C14": ("as built", ""),
     "C15": ("strengthened", "the C14 check caught it at once; the C15 check compared SQuad with Interp1D (both wrong in the same way) and missed it; added an independent textbook spline integral as oracle"),
-    "C16": ("as built", ""),
+    "C16": ("as built", "reported when first run; the patch no longer applies since the genuine repair c523fef rewrote the branch it modified (kept for the record)"),
     "C17": ("strengthened", "first run missed it (needs a non-differentiable argument before the selected index on the re-evaluation path); added jac/hess newparams/nondiff_args_first"),
     "C18": ("as built", "patch regenerated after the fix f9b18ed touched the same lines"),
     "C20": ("as built", ""),
